@@ -242,8 +242,6 @@ def transcendental_leaves(rep: Report, rng: random.Random):
             if not close(y, x + uhat * act, 1e-12):
                 rep.violation({"bijection": "Planar", "dim": dim, "slope": slope, "cond": cond},
                               f"Planar.transform = {y}; x + u*act(w.x+b) = {x + uhat * act}")
-            if not (w @ uhat > -1):
-                rep.violation({"bijection": "Planar", "what": "w.u <= -1"}, f"Planar: w.u_hat = {w @ uhat}")
         except Exception as e:  # noqa: BLE001
             rep.violation({"bijection": "Planar", "error": type(e).__name__}, f"Planar: {type(e).__name__}: {e}")
 
